@@ -301,6 +301,35 @@ def match_known(o, known):
 LEVEL = 'other'
 
 
+class _Timeout(BaseException):
+    pass
+
+
+class _watchdog:
+    """bounds the analysis time of one property (main thread only; elsewhere it is a no-op)"""
+
+    def __init__(self, seconds):
+        self.seconds, self.armed = seconds, False
+
+    def __enter__(self):
+        import signal
+        import threading
+        if threading.current_thread() is threading.main_thread() and signal.getsignal(signal.SIGALRM) in (signal.SIG_DFL, None):
+            def _h(sig, frm):
+                raise _Timeout()
+            signal.signal(signal.SIGALRM, _h)
+            signal.alarm(self.seconds)
+            self.armed = True
+        return self
+
+    def __exit__(self, *a):
+        if self.armed:
+            import signal
+            signal.alarm(0)
+            signal.signal(signal.SIGALRM, signal.SIG_DFL)
+        return False
+
+
 def run_property(prop, tier='quick', tree=None, quiet=False):
     """Run the rule module of one property. Returns (ctx, error|None)."""
     import importlib
@@ -308,12 +337,15 @@ def run_property(prop, tier='quick', tree=None, quiet=False):
     ctx = Ctx(prop, tier, tree)
     try:
         mod = importlib.import_module('amverif.rules.%s' % prop.lower())
-        mod.run(ctx)
+        with _watchdog(int(os.environ.get('AMVERIF_TIMEOUT', '1500'))):
+            mod.run(ctx)
         if not ctx.obs:
             raise AnalysisError('no obligations were generated')
         return ctx, None
     except AnalysisError as e:
         return ctx, 'ANALYSIS-ERROR property=%s %s' % (prop, e)
+    except _Timeout:
+        return ctx, 'ANALYSIS-ERROR property=%s analysis did not finish within its time limit (obligations evaluated so far are reported)' % prop
     except RecursionError as e:
         return ctx, 'ANALYSIS-ERROR property=%s RecursionError' % prop
     except Exception as e:
